@@ -885,10 +885,19 @@ fn partial_version<'s>(input: &mut &'s str) -> PResult<Partial, SemverParseError
     } else {
         (vec![], vec![])
     };
+    // Once a component is a wildcard, everything after it is one as well
+    // (`1.x.3` is `1.x`, `1.2.x-alpha` is `1.2.x`).
+    let minor = major.and(minor.flatten());
+    let patch = minor.and(patch.flatten());
+    let (pre, build) = if patch.is_some() {
+        (pre, build)
+    } else {
+        (vec![], vec![])
+    };
     Ok(Partial {
         major,
-        minor: minor.flatten(),
-        patch: patch.flatten(),
+        minor,
+        patch,
         pre_release: pre,
         build,
     })
